@@ -11,6 +11,7 @@ package main
 import (
 	"crypto/tls"
 	"fmt"
+	"golang.org/x/net/http2"
 	"io"
 	"net"
 	"os"
@@ -376,10 +377,15 @@ func (e *env) leavesAfterActions() {
 	all := []string{"get", "refused-self-dependent-headers", "malformed-headers", "client-reset-stream", "ping", "priority-frame", "window-update", "window-update", "settings", "overlapping-requests"}
 	mr := run.Rand(1102)
 	var wg sync.WaitGroup
-	for i := 0; i < run.Pick(16, 120); i++ {
+	nseq := run.Pick(16, 120)
+	nburst := run.Pick(24, 200)
+	for i := 0; i < nseq+nburst; i++ {
 		var seq []string
 		for k := 1 + mr.Intn(5); k > 0; k-- {
 			seq = append(seq, all[mr.Intn(len(all))])
+		}
+		if i >= nseq {
+			seq = []string{"burst"}
 		}
 		wg.Add(1)
 		go func(i int, seq []string) {
@@ -398,7 +404,12 @@ func (e *env) leavesAfterActions() {
 			for _, a := range seq {
 				h2Act(s, a)
 			}
-			s.Peer.Fence(5 * time.Second)
+			if seq[len(seq)-1] == "burst" {
+				// leave while the handlers of the burst are finishing: wait for the first few responses only
+				s.Peer.WaitFor(0, 5*time.Second, func(e h2peer.Event) bool { return e.Is(http2.FrameHeaders) && e.StreamID > 40 })
+			} else {
+				s.Peer.Fence(5 * time.Second)
+			}
 			if tc, ok := s.Rec.Conn.(*net.TCPConn); ok && sc.RST {
 				tc.SetLinger(0)
 			}
@@ -496,6 +507,15 @@ func h2Act(s *rig.Session, act string) {
 	case "get": // a plain served request
 		s.Peer.WriteRaw(h2peer.RawFrame(1, 0x5, sid, block()))
 		s.Peer.WaitResponse(sid, 10*time.Second)
+	case "burst": // 240 quick requests (answered by the proxy itself) written back to back, nothing awaited
+		var b []byte
+		for k := 0; k < 240; k++ {
+			if k > 0 {
+				sid = s.TakeStreamID()
+			}
+			b = append(b, h2peer.RawFrame(1, 0x5, sid, s.Peer.Encode(h2peer.GetFields("front.example", "/burst", hpack.HeaderField{Name: "user-agent", Value: "kube-probe/1.30"})))...)
+		}
+		s.Peer.WriteRaw(b)
 	case "overlapping-requests": // a second stream is opened (and answered) while the first is still open
 		sid2 := s.TakeStreamID()
 		post := s.Peer.Encode([]hpack.HeaderField{{Name: ":method", Value: "POST"}, {Name: ":scheme", Value: "https"}, {Name: ":authority", Value: "front.example"}, {Name: ":path", Value: "/idle3"}})
